@@ -4,19 +4,8 @@
 //!        tsgv <ID> --replay <file>
 //!        tsgv gen <profile> <seed-words...>     (debugging aid: print a generated program)
 
-mod cval;
-mod dsl;
-mod engine;
-mod gen;
-mod interp;
-mod lib_api;
-mod pool;
-mod props;
-mod pysrc;
-mod rawjson;
-mod refcheck;
-mod stdlib;
-mod tree;
+
+use tsgv::{dsl, engine, gen, props};
 
 fn usage() -> ! {
     eprintln!("usage: tsgv <ID> <quick|thorough> | tsgv <ID> --replay <file>");
